@@ -39,6 +39,14 @@ func RunReplay(funcs map[string]func()) {
 			continue
 		}
 		out := RunOne(f, &v.Vector)
+		// counterexamples that depend on Go's map iteration order: retry until the order
+		// the engine chose occurs (bounded)
+		if v.Params["__maporders"] == "1" {
+			want := v.Kind + " " + v.Label
+			for try := 0; try < 400 && out != want; try++ {
+				out = RunOne(f, &v.Vector)
+			}
+		}
 		fmt.Fprintf(Out, "ZZ-OUTCOME %d %s\n", i, strings.ReplaceAll(out, "\n", " | "))
 	}
 }
